@@ -29,6 +29,10 @@ def cut_key(c):
         return "truncated-complete:%s-reply-delivered-close-delimited-to-%s-client" % (c["framing"], c["proto"].replace("/", "").lower())
     if v == "complete":
         return "truncated-complete:%s-reply-%s-framing-at-client" % (c["framing"], client)
+    if v == "malformed":
+        return "mixed-or-malformed:%s-reply-%s%s" % (c["framing"], c["end"], "-pipelined" if c.get("pipelined") else "")
+    if c.get("client_end") not in ("eof", "reset"):
+        return "left-open-after-failure:%s-reply-%s" % (c["framing"], c["end"])
     return "cut:%s-reply-%s-at-client-%s" % (c["framing"], v, c["end"])
 
 
@@ -121,6 +125,9 @@ def run(ctx):
         if h.get("crashed"):
             ctx.violation("crash:%s@%s" % (name, h["listener"]), {"kind": "hostile", "name": name}, True,
                           "proxy process died on hostile stream %s (%s listener): %s" % (name, h["listener"], h.get("exit_text", "")[:300]))
+        elif h.get("listener") == "origin" and h.get("verdict") == "malformed":
+            ctx.violation("malformed-relay:%s" % name, {"kind": "hostile", "name": name}, True,
+                          "hostile origin reply %s: the client received bytes that are not a well-formed HTTP response: %r" % (name, h.get("reply", "")[:120]))
         elif not h.get("probe_ok"):
             ctx.violation("unresponsive:%s@%s" % (name, h["listener"]), {"kind": "hostile", "name": name}, True,
                           "after hostile stream %s (%s listener) a probe request was not served: %s" % (name, h["listener"], h.get("probe_text", "")))
